@@ -180,8 +180,153 @@ def exp_se3_line(ts, xi):
     a = ts * th
     omc = 2.0 * np.sin(0.5 * a) ** 2
     a2 = a * a
-    ser = a * a2 * (1.0 / 6 - a2 / 120 + a2 * a2 / 5040 - a2 ** 3 / 362880 + a2 ** 4 / 39916800)
+    # a - sin a = a^3/6 (1 - a^2/20 (1 - a^2/42 (1 - a^2/72 (...)))): nine terms, truncation < 1e-19 relative for
+    # |a| < 0.5 (the five-term version was 1e-12 off at a = 0.5, visible once the translation tolerance is eps-sized)
+    ser = np.ones_like(a)
+    for den in (342.0, 272.0, 210.0, 156.0, 110.0, 72.0, 42.0, 20.0):
+        ser = 1.0 - a2 / den * ser
+    ser = a * a2 / 6.0 * ser
     ams = np.where(np.abs(a) < 0.5, ser, a - np.sin(a))
     M[..., :3, :3] = np.eye(3) + np.sin(a)[..., None, None] * K + omc[..., None, None] * K2
     M[..., :3, 3] = ts[..., None] * tau + (omc / th)[..., None] * (K @ tau) + (ams / th)[..., None] * (K2 @ tau)
     return M
+
+
+# ---------------------------------------------------------------------------------------------
+# bspline: geometry of the control poses and a-priori bounds used by the continuity / accuracy tolerances
+def rel_geometry(M):
+    """M: (nb, N, 4, 4) poses -> (theta, dist), each (nb, N-1): rotation angle in [0, pi] of the relative rotation
+    and distance between the positions of consecutive poses"""
+    Rr = np.einsum("bnji,bnjk->bnik", M[:, :-1, :3, :3], M[:, 1:, :3, :3])
+    v = np.stack([Rr[..., 2, 1] - Rr[..., 1, 2], Rr[..., 0, 2] - Rr[..., 2, 0], Rr[..., 1, 0] - Rr[..., 0, 1]], -1)
+    th = np.arctan2(0.5 * np.linalg.norm(v, axis=-1), 0.5 * (np.trace(Rr, axis1=-2, axis2=-1) - 1.0))
+    d = np.linalg.norm(M[:, 1:, :3, 3] - M[:, :-1, :3, 3], axis=-1)
+    return th, d
+
+
+def twist_norm_bound(th, d):
+    """|tau| of Log of a relative pose with rotation angle th and translation length d:
+    tau = V(phi)^-1 t and the eigenvalues of V^-1 have modulus 1 or (th/2)/sin(th/2) <= pi/2"""
+    th = np.asarray(th, float)
+    half = 0.5 * th
+    kap = np.where(half > 1e-8, half / np.sin(np.maximum(half, 1e-8)), 1.0)
+    return kap * d
+
+
+def exp_translation_noise(th, eps, window=32.0):
+    """Relative (to |tau|) bound on the translation error of a closed-form se3 Exp in a dtype with machine epsilon eps,
+    as granted by property C01 (sqrt(eps)) but resolved in the angle:  t = tau + c1 phi x tau + c2 phi x (phi x tau) with
+    c1 = (1-cos th)/th^2.  cos th carries an absolute error <= eps/2, so c1 is off by <= eps/(2 th^2) (taken 4x: 2 eps/th^2)
+    and the term c1 phi x tau by <= 2 eps/th |tau|; whatever c1 comes out when th^2 <~ eps (cos th rounds to 1, c1 = 0
+    instead of 1/2) the term is off by at most th |tau|.  Hence N(th) = min(th, 2 eps/th) <= sqrt(2 eps).  For a scaled
+    twist lambda*xi, 0<=lambda<=1, sup_lambda N(lambda th) lambda = N(th) (for lambda th below the cross-over the product is
+    lambda^2 th <= 2 eps/th).  The angle the library sees is only known to a few eps (rounded quaternions), so the
+    supremum over [th - window*eps, th + window*eps] is returned."""
+    th = np.asarray(th, float)
+    thc = math.sqrt(2.0 * eps)
+    x = np.clip(thc, np.maximum(th - window * eps, 0.0), th + window * eps)
+    return np.minimum(x, 2.0 * eps / np.maximum(x, 1e-300))
+
+
+def _leibniz(*fs):
+    """fs: tuples (f0, f1, f2, f3) bounding the norms of a factor and its first three derivatives; returns the same
+    bounds for the product (Leibniz rule, sub-multiplicative norms)"""
+    out = fs[0]
+    for g in fs[1:]:
+        out = tuple(sum(math.comb(k, i) * out[i] * g[k - i] for i in range(k + 1)) for k in range(4))
+    return out
+
+
+def bspline_third_derivative_bounds(th, tau):
+    """Bounds (K_rot, K_tr) on |d^3 R/du^3|_2 and |d^3 p/du^3|_2 over u in [0, 1] of one segment
+    T(u) = P Exp(l0(u) xi0) Exp(l1(u) xi1) Exp(l2(u) xi2) of the cumulative cubic B-spline, where th >= |phi_j| and
+    tau >= |tau_j| for the three twists (arrays broadcast).  The cumulative basis l = M U(u) of the docstring has
+    |l'| <= 3/4, |l''| <= 1, |l'''| <= 2 on [0, 1].  With E = exp(l(u) hat(phi)) and g = int_0^l(u) exp(r hat(phi)) tau dr
+    (rotation and translation of one factor):  |E'| <= c1 th, |E''| <= c1^2 th^2 + c2 th, |E'''| <= c1^3 th^3 + 3 c1 c2 th^2
+    + c3 th and |g^(k)| = tau/th times the same expression (|g| <= tau); R = R_P E0 E1 E2, p = p_P + R_P (g0 + E0 g1 + E0 E1 g2)."""
+    c1, c2, c3 = 0.75, 1.0, 2.0
+    th, tau = np.asarray(th, float), np.asarray(tau, float)
+    one = np.ones_like(th)
+    e = (one, c1 * th, c1 * c1 * th * th + c2 * th, c1 ** 3 * th ** 3 + 3 * c1 * c2 * th * th + c3 * th)
+    g = (tau, c1 * tau, tau * (c1 * c1 * th + c2), tau * (c1 ** 3 * th * th + 3 * c1 * c2 * th + c3))
+    k_rot = _leibniz(e, e, e)[3]
+    k_tr = g[3] + _leibniz(e, g)[3] + _leibniz(e, e, g)[3]
+    return k_rot, k_tr
+
+
+# ---------------------------------------------------------------------------------------------
+# APE / RPE reference (documented definitions; numpy float64)
+def associate(rstamp, estamp, diff, offset):
+    """Pairs (i, j) with |rstamp[i] - (estamp[j] + offset)| < diff (documented: 'maximum allowed absolute time difference
+    for associating poses', 'offset for the second timestamps').  Returns (pairs sorted by i, margin, unique): margin =
+    distance of the closest decision from the threshold, unique = no stamp occurs in two pairs (then 'nearest stamp'
+    and 'any stamp within diff' are the same rule)."""
+    rstamp, estamp = np.asarray(rstamp, float), np.asarray(estamp, float)
+    D = np.abs(rstamp[:, None] - (estamp[None, :] + offset))
+    hit = D < diff
+    ii, jj = np.nonzero(hit)
+    unique = bool(hit.sum(0).max(initial=0) <= 1 and hit.sum(1).max(initial=0) <= 1)
+    return list(zip(ii.tolist(), jj.tolist())), float(np.abs(D - diff).min()), unique
+
+
+def inv_mats(M):
+    """inverse of (..., 4, 4) rigid matrices"""
+    out = np.zeros_like(M)
+    Rt = np.swapaxes(M[..., :3, :3], -1, -2)
+    out[..., :3, :3] = Rt
+    out[..., :3, 3] = -np.einsum("...ij,...j->...i", Rt, M[..., :3, 3])
+    out[..., 3, 3] = 1.0
+    return out
+
+
+def rot_angles(Rm):
+    """angles in [0, pi] of (..., 3, 3) rotation matrices (atan2 form, accurate near 0 and pi)"""
+    v = np.stack([Rm[..., 2, 1] - Rm[..., 1, 2], Rm[..., 0, 2] - Rm[..., 2, 0], Rm[..., 1, 0] - Rm[..., 0, 1]], -1)
+    return np.arctan2(0.5 * np.linalg.norm(v, axis=-1), 0.5 * (np.trace(Rm, axis1=-2, axis2=-1) - 1.0))
+
+
+def metric_errors(Mr, Me, metric, etype, pairs=None):
+    """Per-sample errors of the documented APE / RPE definitions for associated (and already aligned) poses
+    Mr, Me: (M, 4, 4).  Returns a list of (reading name, error array): where the documentation leaves the norm open
+    (||.||_2 of a matrix: spectral or Frobenius) or states a formula that differs from the usual definition (rpe
+    translation) every reading is returned and the caller accepts any of them."""
+    if metric == "ape":
+        E = inv_mats(Me) @ Mr
+        dt = [("", np.linalg.norm(Me[:, :3, 3] - Mr[:, :3, 3], axis=-1))]
+    else:
+        a, b = [p[0] for p in pairs], [p[1] for p in pairs]
+        relr, rele = inv_mats(Mr[a]) @ Mr[b], inv_mats(Me[a]) @ Me[b]
+        E = inv_mats(relr) @ rele
+        ir, ie = inv_mats(relr), inv_mats(rele)
+        dt = [("translation of Tr^-1 Te", np.linalg.norm(E[:, :3, 3], axis=-1)),
+              ("|Rr^T tr - Re^T te|", np.linalg.norm(ir[:, :3, 3] - ie[:, :3, 3], axis=-1))]
+    I4 = np.eye(4)
+    if etype == "translation":
+        return dt
+    if etype == "rotation":
+        A = E[:, :3, :3] - I4[:3, :3]
+        return [("frobenius", np.linalg.norm(A, axis=(-2, -1))), ("spectral", np.linalg.norm(A, ord=2, axis=(-2, -1)))]
+    if etype == "pose":
+        A = E - I4
+        return [("frobenius", np.linalg.norm(A, axis=(-2, -1))), ("spectral", np.linalg.norm(A, ord=2, axis=(-2, -1)))]
+    ang = rot_angles(E[:, :3, :3])
+    if etype == "radian":
+        return [("", ang)]
+    if etype == "degree":
+        return [("", np.degrees(ang))]
+    raise ValueError(etype)
+
+
+def statistics(err):
+    """{name: (lo, hi)} interval of admissible values of each documented statistic of the error samples: Median may be
+    any value between the two middle samples, STD the population or the sample standard deviation."""
+    e = np.abs(np.asarray(err, float))
+    n = len(e)
+    s = np.sort(e)
+    mean = float(e.mean())
+    ss = float(((e - mean) ** 2).sum())
+    sds = [math.sqrt(ss / n)] + ([math.sqrt(ss / (n - 1))] if n > 1 else [])
+    one = lambda v: (float(v), float(v))
+    return {"Max": one(s[-1]), "Min": one(s[0]), "Mean": one(mean), "Median": (float(s[(n - 1) // 2]), float(s[n // 2])),
+            "RMSE": one(math.sqrt(float((e ** 2).mean()))), "SSE": one(float((e ** 2).sum())),
+            "STD": (min(sds), max(sds))}
